@@ -113,7 +113,7 @@ impl Chooser for Scripted {
 
 #[derive(Clone, Debug)]
 pub struct Model {
-    pub specs: Vec<MachineSpec>,
+    pub specs: std::sync::Arc<Vec<MachineSpec>>,
     pub m: Vec<MState>,
     pub gfrac_padding: f64,
     pub gfrac_blocking: f64,
@@ -184,7 +184,7 @@ impl Model {
         }
         let n = case.machines.len();
         Model {
-            specs: case.machines.clone(),
+            specs: std::sync::Arc::new(case.machines.clone()),
             m,
             gfrac_padding: case.max_padding_frac.0,
             gfrac_blocking: case.max_blocking_frac.0,
